@@ -59,7 +59,7 @@ func allScenarios() []*scenario {
 			Why: "Add ‖ Add ‖ CompactAll ‖ reader: four processes, preemption-bounded"},
 		{Name: "S13", Init: "empty", Procs: []procSpec{
 			{Steps: []step{{Kind: "open", Hash: "sha1"}, add("a")}, NoOpen: true, NoAuto: true},
-			{Steps: []step{{Kind: "open", Hash: "s256"}, add("b"), add("c")}, NoOpen: true, NoAuto: true}}, Preempt: -1,
+			{Steps: []step{{Kind: "open", Hash: "s256"}, add("b"), add("c")}, NoOpen: true, NoAuto: true}}, Preempt: -1, MixedHash: true,
 			Why: "handles opened with different hash ids on one empty directory: the stack's hash type is that of the first committed table"},
 		{Name: "S14", Init: "one", Procs: []procSpec{PNoAuto(add("empty")), PNoAuto(add("a"))}, Preempt: -1,
 			Why: "Add(empty transaction) ‖ Add: succeeds without creating a table"},
